@@ -14,6 +14,7 @@ import subprocess
 import time
 
 import vlib
+from checks import c01_copyloop
 
 KIB = 1024
 STALL_MS = 120000     # no progress and no disturbance for this long, with a proxy alive = stalled
@@ -244,6 +245,7 @@ def summarise(d):
 
 
 def run(ctx):
+    c01_copyloop.run_copyloop(ctx)
     ctx.level = "proof"
     exe, broker = build()
     ctx.trusted += ["the rig harness/overlay/zz_verif/e2e/main.go: fault-injecting TCP relay, HTTP front of the broker, stub STUN and NAT "
